@@ -8,6 +8,7 @@ CONSTANTS
   Ticks = FALSE
   Beh = FALSE
   Mut = "none"
+  AddEv = TRUE
 CHECK_DEADLOCK FALSE
 POSTCONDITION TraceAccepted
 INVARIANT Machinery
